@@ -66,6 +66,7 @@ class Tracer:
 
     mode 'count'      : only counts call events (the simulator's notion of elapsed steps)
     mode 'enumerate'  : counts call events per (relative file, function)
+    mode 'enumerate_lines' : call and line events per function (cold-start sweep)
     mode 'exc_call'   : raise at the k-th entry of (file, func)
     mode 'exc_line'   : after the k-th entry of (file, func), raise at its n-th line event
     mode 'detector'   : raise at the k-th call event inside tealer/detectors/*, counted only until
@@ -82,6 +83,10 @@ class Tracer:
         self.fired_at: Optional[str] = None
         self.exc_obj: Optional[BaseException] = None
         self.sites: Dict[str, int] = {}
+        self.lines: Dict[str, int] = {}
+        self.first_lines: Dict[str, int] = {}
+        self._first_frames: Dict[int, str] = {}
+        self._frame_key: Dict[int, str] = {}
         self.detector_events = 0
         self.in_output = False
         self._lines = 0
@@ -104,6 +109,17 @@ class Tracer:
         mode = self.mode
         if mode == "count":
             return None
+        if mode == "enumerate_lines":
+            # call and line events per function, and the line events of each function's first
+            # entry: what the cold-start sweep diffs between the first and the second execution
+            # of one operation to find code that only runs on first use
+            key = fn[len(self.root) :] + ":" + code.co_name
+            self.sites[key] = self.sites.get(key, 0) + 1
+            if key not in self.first_lines:
+                self.first_lines[key] = 0
+                self._first_frames[id(frame)] = key
+            self._frame_key[id(frame)] = key
+            return self._count_lines
         if mode == "enumerate":
             key = fn[len(self.root) :] + ":" + code.co_name
             self.sites[key] = self.sites.get(key, 0) + 1
@@ -139,6 +155,19 @@ class Tracer:
                     raise self.exc_obj
                 return self._line_tracer
         return None
+
+    def _count_lines(self, frame: Any, event: str, arg: Any) -> Optional[Callable]:
+        fid = id(frame)
+        if event == "line":
+            key = self._frame_key.get(fid)
+            if key is not None:
+                self.lines[key] = self.lines.get(key, 0) + 1
+                if fid in self._first_frames:
+                    self.first_lines[key] += 1
+        elif event == "return":
+            self._frame_key.pop(fid, None)
+            self._first_frames.pop(fid, None)
+        return self._count_lines
 
     def _line_tracer(self, frame: Any, event: str, arg: Any) -> Optional[Callable]:
         if event == "line" and not self.fired:
